@@ -24,6 +24,7 @@ theorem tr_recv (hl : ∀ s, (cfg.lower s).length = s.length) (n : Nat) (ih : Tr
   cases a with
   | any => exact asg_any_l cfg sfh c
   | unit => have := H.fa; unfold Ty.TF at this; exact absurd this id
+  | callable _ _ _ => have := H.fa; unfold Ty.TF at this; exact absurd this id
   | data => have := H.fa; unfold Ty.TF at this; exact absurd this id
   | richData => have := H.fa; unfold Ty.TF at this; exact absurd this id
   | tuple ts g => exact recv_to_asg cfg sfh _ c hc (tr_tuple cfg sfh n ih ts g b c hw H h1 h2')
